@@ -454,6 +454,31 @@ func c20Enum(ctx *ev.Ctx, fn func(C20Case)) string {
 			}
 		}
 	}
+	// chains: groups nested 1..40 deep (alternating the two grouped codes), the innermost empty or
+	// holding a leaf, every level followed by a sibling leaf or not - nesting depth alone, beyond
+	// any small table a search might size for
+	for depth := 1; depth <= 40; depth++ {
+		for _, inner := range []int{-1, 0, 1} {
+			for _, sib := range []bool{false, true} {
+				var t T
+				if inner >= 0 {
+					t = T{K: inner}
+				}
+				for d := depth; d >= 1; d-- {
+					g := T{K: 2 + d%2}
+					if d < depth || inner >= 0 {
+						g.Kids = append(g.Kids, t)
+					}
+					if sib {
+						g.Kids = append(g.Kids, T{K: d % 2})
+					}
+					t = g
+				}
+				emit([]T{t})
+				emit([]T{t, {K: 0}})
+			}
+		}
+	}
 	// top level: every single depth-2 node; every pair and triple of depth-1 nodes; pairs of
 	// (depth-2 node, leaf) in both orders
 	emit(nil)
@@ -474,7 +499,7 @@ func c20Enum(ctx *ev.Ctx, fn func(C20Case)) string {
 			}
 		}
 	}
-	return "all AVP trees over two leaf codes, two grouped codes and one leaf that carries the code of a Grouped AVP under a foreign vendor id (opaque data, not a group) and one container whose code the dictionary declares as OctetString but which the application assembled as a group: every single node of nesting depth <=3 with inner width <=3 (outermost group: <=2 children quick, <=3 thorough), alone and next to a leaf in both orders; every ordered pair (and a family of triples) of depth-<=2 nodes; empty groups, repeated codes at several depths, groups in groups. Per tree: FindAVP and FindAVPs by uint32, int and name for every code of the alphabet, a defined but absent code, an undefined code and an undefined name; FindAVPsWithPath for every path of length <=3 over the alphabet plus the absent code, alternating number and name per step. Every tree is searched twice: in a message carrying dict.Default and in one carrying a private dictionary that names the four codes differently and attaches the default names to codes absent from the tree (a name must resolve through the message's own dictionary). After the first round of queries each message is edited without going through Message.AddAVP / InsertAVP (a member added to its first group, its first top-level AVP cut out of the exported slice, its AVPs replaced by Marshal) and every query is asked again. Path searches are also made overlapping in time (a nested search on another message, started from inside the outer one through a caller-defined data type) after a search whose path did not resolve. Every tree in which a group subtree occurs more than once is also built with ONE node object for all its occurrences (a prebuilt group attached in several places): every occurrence must still be reported, in pre-order. Results are compared by pointer identity with a pre-order reference walk / strict per-level match."
+	return "all AVP trees over two leaf codes, two grouped codes and one leaf that carries the code of a Grouped AVP under a foreign vendor id (opaque data, not a group) and one container whose code the dictionary declares as OctetString but which the application assembled as a group: every single node of nesting depth <=3 with inner width <=3 (outermost group: <=2 children quick, <=3 thorough), alone and next to a leaf in both orders; every ordered pair (and a family of triples) of depth-<=2 nodes; empty groups, repeated codes at several depths, groups in groups; chains of 1..40 nested groups (innermost empty or holding a leaf, with or without a sibling leaf at every level). Per tree: FindAVP and FindAVPs by uint32, int and name for every code of the alphabet, a defined but absent code, an undefined code and an undefined name; FindAVPsWithPath for every path of length <=3 over the alphabet plus the absent code, alternating number and name per step. Every tree is searched twice: in a message carrying dict.Default and in one carrying a private dictionary that names the four codes differently and attaches the default names to codes absent from the tree (a name must resolve through the message's own dictionary). After the first round of queries each message is edited without going through Message.AddAVP / InsertAVP (a member added to its first group, its first top-level AVP cut out of the exported slice, its AVPs replaced by Marshal) and every query is asked again. Path searches are also made overlapping in time (a nested search on another message, started from inside the outer one through a caller-defined data type) after a search whose path did not resolve. Every tree in which a group subtree occurs more than once is also built with ONE node object for all its occurrences (a prebuilt group attached in several places): every occurrence must still be reported, in pre-order. Results are compared by pointer identity with a pre-order reference walk / strict per-level match."
 }
 
 func runC20(ctx *ev.Ctx) {
